@@ -27,6 +27,8 @@ pub struct GenCfg {
     pub avoid_unused_andor: bool,
     pub avoid_str_tuple_arith: bool,
     pub avoid_global_temps: bool,
+    /// maximal number of function-typed expressions per top-level declaration (see Gen::fn_exprs)
+    pub max_fn_exprs: usize,
     /// per-function budget of Lua locals (each read/call/definition costs one)
     pub locals_budget: usize,
     /// plain strings only (no backslash / newline / control characters)
@@ -58,6 +60,7 @@ impl GenCfg {
             avoid_unused_andor: true,
             avoid_str_tuple_arith: true,
             avoid_global_temps: false,
+            max_fn_exprs: 7,
             locals_budget: 110,
             plain_strings: true,
             extreme_literals: true,
@@ -101,6 +104,12 @@ pub struct Gen<'t, 'a, 'b> {
     fn_depth: usize,
     /// remaining node budget of the current top-level declaration
     budget: i64,
+    /// function-typed expressions (lambda literals, reads of local closures, method reads) generated in the
+    /// current top-level declaration: the type checker copies the connected constraint graph for each one,
+    /// which is exponential in their number (known finding C07/inner_copy)
+    fn_exprs: usize,
+    /// generating the base case of a recursive function: no call of an enclosing recursive function
+    in_base_case: bool,
 }
 
 const INT_POOL: &[i64] = &[0, 1, 2, 3, 5, 7, 10, -1, -2, 42, 100, 255, 1000, -17];
@@ -124,7 +133,7 @@ const STR_POOL: &[&str] = &["", "a", "b", "abc", "hello", "x y", "Z", "0", "√©t√
 
 impl<'t, 'a, 'b> Gen<'t, 'a, 'b> {
     pub fn new(t: &'t mut Tape<'a, 'b>, cfg: GenCfg) -> Self {
-        Gen { t, p: Program::default(), cfg, scope: Vec::new(), uid: 0, rec_stack: Vec::new(), fn_depth: 0, budget: 0 }
+        Gen { t, p: Program::default(), cfg, scope: Vec::new(), uid: 0, rec_stack: Vec::new(), fn_depth: 0, budget: 0, fn_exprs: 0, in_base_case: false }
     }
 
     fn fresh(&mut self, prefix: &str, ty: Ty, kind: VarKind, mutable: bool) -> VarId {
@@ -273,9 +282,18 @@ impl<'t, 'a, 'b> Gen<'t, 'a, 'b> {
             .collect()
     }
 
+    fn fn_room(&self) -> bool {
+        self.fn_exprs < self.cfg.max_fn_exprs
+    }
+
     fn callables(&self, ret: &Ty, ctx: &FnCtx) -> Vec<SVar> {
+        let room = self.fn_room();
+        let base = self.in_base_case;
+        let recs: Vec<VarId> = self.rec_stack.iter().map(|r| r.0).collect();
         self.scope
             .iter()
+            .filter(|v| room || v.global)
+            .filter(|v| !(base && recs.contains(&v.id)))
             .filter(|v| match &v.ty {
                 Ty::Fn(_, r, pure) => &**r == ret && (!ctx.pure || *pure),
                 _ => false,
@@ -381,13 +399,17 @@ impl<'t, 'a, 'b> Gen<'t, 'a, 'b> {
             }
         }
         self.cost(ctx, 2);
+        if !f.global {
+            self.fn_exprs += 1;
+        }
         e(r, EKind::Call(Box::new(var(&self.p, f.id)), args))
     }
 
     fn method_call(&mut self, ret: &Ty, depth: usize, ctx: &mut FnCtx) -> Option<Expr> {
-        if !self.cfg.methods {
+        if !self.cfg.methods || !self.fn_room() {
             return None;
         }
+        self.fn_exprs += 1;
         // a blob variable in scope whose declaration has a method returning `ret`
         let mut cands: Vec<(SVar, String, Vec<Ty>)> = Vec::new();
         for v in self.scope.iter() {
@@ -593,7 +615,7 @@ impl<'t, 'a, 'b> Gen<'t, 'a, 'b> {
             return self.leaf(ty, ctx);
         }
         let d = depth - 1;
-        let deep = self.fn_depth >= 3;
+        let deep = self.fn_depth >= 3 || !self.fn_room();
         // generic productions available for every type
         let calls = self.callables(ty, ctx);
         let can_call = !calls.is_empty() && ctx.rec_calls < 2;
@@ -840,6 +862,7 @@ impl<'t, 'a, 'b> Gen<'t, 'a, 'b> {
         outer: &mut FnCtx,
     ) -> FnDef {
         self.fn_depth += 1;
+        self.fn_exprs += 1;
         let scope = self.scope.len();
         if let Some((sv, b)) = self_var {
             self.scope.push(SVar { id: sv, ty: Ty::Blob(b), mutable: true, assignable: false, rec: false, global: false });
@@ -875,7 +898,10 @@ impl<'t, 'a, 'b> Gen<'t, 'a, 'b> {
                 // the base case must not recurse
                 let saved = ctx.rec_calls;
                 ctx.rec_calls = 99;
+                let was = self.in_base_case;
+                self.in_base_case = true;
                 let v = self.expr_c(&ret, 1, &mut ctx);
+                self.in_base_case = was;
                 ctx.rec_calls = saved;
                 Block { stmts: vec![Stmt::Ret(Some(v))], value: None }
             };
@@ -1002,7 +1028,7 @@ impl<'t, 'a, 'b> Gen<'t, 'a, 'b> {
             if ctx.block_depth > 0 { 2 } else { 0 },                   // 8 do-block
             if !pure && self.cfg.blobs { 6 } else { 0 },               // 9 field assignment
             if !pure && self.cfg.lists { 5 } else { 0 },               // 10 list push / for_each
-            if self.cfg.closures && ctx.block_depth > 0 && self.fn_depth < 3 { 6 } else { 0 }, // 11 local function definition
+            if self.cfg.closures && ctx.block_depth > 0 && self.fn_depth < 3 && self.fn_room() { 6 } else { 0 }, // 11 local function definition
             1,                                                         // 12 unused expression statement
         ];
         match self.t.weighted(&w) {
@@ -1062,6 +1088,8 @@ impl<'t, 'a, 'b> Gen<'t, 'a, 'b> {
                     .scope
                     .iter()
                     .filter(|v| matches!(&v.ty, Ty::Fn(..)))
+                    .filter(|v| self.fn_room() || v.global)
+                    .filter(|v| !(self.in_base_case && self.rec_stack.iter().any(|r| r.0 == v.id)))
                     .filter(|v| ctx.rec_calls < 2 || !v.rec)
                     .cloned()
                     .collect();
@@ -1124,7 +1152,7 @@ impl<'t, 'a, 'b> Gen<'t, 'a, 'b> {
                 if self.t.chance(2, 3) {
                     let x = self.expr_c(&inner, d, ctx);
                     Some(Stmt::Expr(e(Ty::Void, EKind::Std(StdFn::ListPush, vec![var(&self.p, l.id), x]))))
-                } else if self.cfg.higher_order && self.fn_depth < 3 {
+                } else if self.cfg.higher_order && self.fn_depth < 3 && self.fn_room() {
                     let def = self.lambda_c(vec![inner.clone()], Ty::Void, false, None, None, ctx);
                     let fty = Ty::Fn(vec![inner], Box::new(Ty::Void), false);
                     Some(Stmt::Expr(e(
@@ -1150,9 +1178,16 @@ impl<'t, 'a, 'b> Gen<'t, 'a, 'b> {
                 let fpure = pure;
                 let fty = Ty::Fn(pts.clone(), Box::new(ret.clone()), fpure);
                 let v = self.fresh("h", fty.clone(), VarKind::Local, false);
-                // visible in its own body
-                self.scope.push(SVar { id: v, ty: fty.clone(), mutable: false, assignable: false, rec, global: false });
+                // a recursive function is visible in its own body (calls pass fuel - 1); a non-recursive one is
+                // made visible only afterwards so that it cannot call itself
+                let sv = SVar { id: v, ty: fty.clone(), mutable: false, assignable: false, rec, global: false };
+                if rec {
+                    self.scope.push(sv.clone());
+                }
                 let def = self.lambda_c(pts, ret, fpure, if rec { Some(v) } else { None }, None, ctx);
+                if !rec {
+                    self.scope.push(sv);
+                }
                 self.cost(ctx, 1);
                 Some(Stmt::Def { var: v, mutable: false, value: e(fty, EKind::Lambda(Box::new(def))) })
             }
@@ -1271,6 +1306,7 @@ impl<'t, 'a, 'b> Gen<'t, 'a, 'b> {
 
     fn gen_global_fn(&mut self) {
         self.budget = self.cfg.decl_budget;
+        self.fn_exprs = 0;
         let rec = self.cfg.recursion && self.t.chance(1, 3);
         let np = self.t.below(4);
         let mut pts = Vec::new();
@@ -1290,13 +1326,20 @@ impl<'t, 'a, 'b> Gen<'t, 'a, 'b> {
         let ret = if self.t.chance(1, 5) { Ty::Void } else { self.value_ty(2) };
         let fty = Ty::Fn(pts.clone(), Box::new(ret.clone()), false);
         let v = self.fresh("f", fty.clone(), VarKind::Global, false);
-        self.scope.push(SVar { id: v, ty: fty.clone(), mutable: false, assignable: false, rec, global: true });
+        let sv = SVar { id: v, ty: fty.clone(), mutable: false, assignable: false, rec, global: true };
+        if rec {
+            self.scope.push(sv.clone());
+        }
         let def = self.lambda(pts, ret, false, if rec { Some(v) } else { None }, None);
+        if !rec {
+            self.scope.push(sv);
+        }
         self.p.globals.push(Global { var: v, mutable: false, value: e(fty, EKind::Lambda(Box::new(def))) });
     }
 
     fn gen_global_value(&mut self) {
         self.budget = 12;
+        self.fn_exprs = 0;
         let ty = self.value_ty(2);
         let mutable = self.t.chance(1, 2);
         // initialisers are effect-free: operators, literals and earlier constant globals only
@@ -1353,6 +1396,7 @@ impl<'t, 'a, 'b> Gen<'t, 'a, 'b> {
         let scope = self.scope.len();
         let mut body = Block::default();
         self.budget = self.cfg.decl_budget * 2;
+        self.fn_exprs = 0;
         let n = self.cfg.max_stmts / 2 + self.t.below(self.cfg.max_stmts / 2 + 1);
         for _ in 0..n {
             if ctx.locals > self.cfg.locals_budget {
